@@ -501,6 +501,9 @@ class Interp:
         if hint_type is None:
             if not items:
                 et = None
+            elif any(isinstance(x, (VDictRec, VObj)) for x in items):
+                # elements without a symbolic encoding (dict literals / heap objects): concrete python-level list
+                return VPyList(items)
             else:
                 et = self.join_types([typeof(self.encodable(x)) for x in items])
         else:
@@ -614,6 +617,11 @@ class Interp:
             last = self.ev(sub, env)
             if i == len(n.values) - 1:
                 return last
+            if isinstance(n.op, ast.Or) and i == len(n.values) - 2 and isinstance(n.values[-1], ast.Constant) \
+                    and isinstance(n.values[-1].value, str) and isinstance(last, VStr):
+                # `s or "<literal>"` on a string: value-level (no path fork); the literal has no side effect and a
+                # str is falsy exactly when it is empty
+                return VStr(z3.If(last.e != z3.StringVal(""), last.e, z3.StringVal(n.values[-1].value)))
             # pure boolean fast path: remaining operands are side-effect free comparisons
             t = self.test(last)
             if isinstance(n.op, ast.And) and not t:
